@@ -43,6 +43,10 @@ type SCase struct {
 const tinyEps = 1e-30
 const stallMaxIt = 50
 
+// every stage-1 exceedance of the (cheap) stalling family is confirmed under the full budget, so a
+// listed open finding does not turn the run into a capped one
+const stallConfirmPerKey = 256
+
 func (cs *SCase) feasible(x []float64) bool {
 	switch cs.Con {
 	case "le":
@@ -333,7 +337,7 @@ func (s *stager) stall(cs *SCase, rank int64) {
 		default:
 			key = fmt.Sprintf("TICK|%s|%s|re-evaluating", cs.Routine, cs.class())
 		}
-		if s.confirmed[key] < confirmPerKey {
+		if s.confirmed[key] < stallConfirmPerKey {
 			status, label, calls = runStall(cs, evalFull, budgetFull(d))
 			if status == "TICK" {
 				s.confirmed[key]++
@@ -343,7 +347,7 @@ func (s *stager) stall(cs *SCase, rank int64) {
 			}
 		} else {
 			c.Count("over_stage1_budget_presumed_spin:"+key, 1)
-			c.Cap("full-budget confirmation skipped after " + fmt.Sprint(confirmPerKey) + " confirmed spins per key (only when a TICK violation exists)")
+			c.Cap("full-budget confirmation skipped after " + fmt.Sprint(stallConfirmPerKey) + " confirmed spins per key (only when a TICK violation exists)")
 		}
 	}
 	if len(label) > 8 && label[:8] == "HARNESS:" {
